@@ -304,6 +304,16 @@ func ruleCleanerDeletes(c *Check, rWhat, rKeep, rNewest, rStale, rErrors, rDisab
 		a, b := param(f1, 0), param(f1, 1)
 		aft, bef := "(time.Time).After("+a+".Timestamp, "+b+".Timestamp)", "(time.Time).Before("+a+".Timestamp, "+b+".Timestamp)"
 		okc := len(p1) == 3
+		if len(p1) == 1 && len(p1[0].Rets) == 1 {
+			// the library's three-way comparison with the operands swapped:
+			// b.Timestamp.Compare(a.Timestamp) is −1 when a is after b
+			for _, e := range callsOf(&p1[0], "(time.Time).Compare") {
+				if e.Res == p1[0].Rets[0] && len(e.Args) == 2 && e.Args[0] == b+".Timestamp" && e.Args[1] == a+".Timestamp" {
+					okc = true
+					p1 = nil
+				}
+			}
+		}
 		for i := range p1 {
 			p := &p1[i]
 			at, af := boolCond(p, aft, -1)
